@@ -2,7 +2,7 @@
 controllers themselves are checked at L2 in harness.ctrl once built)."""
 from . import ctrl, loop
 
-OWNED = ["C15."]
+OWNED = ["C15.", "C05.trial_iterate_in_box"]  # "an accepted step never leaves the box"
 REQUIRED = [
     "C15.dt_is_1_over_previous_lambda",
     "C15.no_trial_after_lamb_max",
